@@ -105,11 +105,7 @@ pub fn gen_xscenario(rng: &mut Rng) -> XScenario {
             program.push(Stmt::Output(rng.pick(&names).clone(), None));
         }
     }
-    let inputs_json = match rng.below(3) {
-        0 => "{}".to_string(),
-        1 => "{\"k\": 3, \"xs\": [1, 2, 3]}".to_string(),
-        _ => "{\"k\": \"s\", \"m\": {\"k\": 1}}".to_string(),
-    };
+    let inputs_json = crate::c02::gen_inputs(rng);
     let mut plans = vec![XPlan { plan: Plan::canonical(), aslr_off: false, mode: "file".into(), inputs_via_stdin: false, use_output_file: false, env: vec![] }];
     for _ in 0..rng.range(2, 4) {
         let mut p = Plan::canonical();
@@ -222,7 +218,18 @@ pub fn xjudge(sc: &XScenario, ex: &XExec) -> Option<Viol> {
         }
         None => {
             // all statements succeed in-process; the CLI may still refuse a non-portable output
-            // ([output error]); when it exits 0 its object must list the same names
+            // ([output error]) - which the in-process session mirrors; with none of those an
+            // ordinary error exit means the CLI failed a program that is fine
+            if !ok0 && r0.exit == Some(1) && rex.threads[0].output_errors == 0 {
+                let said = format!("{} {}", String::from_utf8_lossy(&r0.stdout), String::from_utf8_lossy(&r0.stderr));
+                if !said.contains("[output error]") {
+                    return Some(Viol {
+                        clause: "cli-vs-inprocess".into(),
+                        detail: format!("every statement succeeds in-process but the CLI exits 1: {}", said.chars().take(300).collect::<String>()),
+                    });
+                }
+            }
+            // when it exits 0 its object must list the same names
             if ok0 {
                 let text = String::from_utf8_lossy(&emitted(&sc.plans[0], r0)).to_string();
                 let keys = crate::c19model::top_level_keys(text.trim());
